@@ -158,7 +158,7 @@ def _add_lookup(table, lookup_type, subtable):
     table.LookupList.LookupCount = len(table.LookupList.Lookup)
 
 
-def build_zoo() -> TTFont:
+def build_zoo(variant=None) -> TTFont:
     fb = FontBuilder(1000, isTTF=True)
     fb.setupGlyphOrder(NAMES)
     fb.setupCharacterMap({ord(c): c for c in "abcdefgh"})
@@ -183,4 +183,12 @@ def build_zoo() -> TTFont:
     for fn in (chain1, chain2):
         _add_lookup(gsub, 6, fn("Subst"))
         _add_lookup(gpos, 8, fn("Pos"))
+    if variant == "empty lookup first":
+        # a lookup without subtables (subsetters leave these behind) ahead of every other lookup: whether a
+        # table has children is a fact about that instance, the walk must still reach its siblings' subtables
+        for table in (gsub, gpos):
+            lk = ot.Lookup()
+            lk.LookupType, lk.LookupFlag, lk.SubTable, lk.SubTableCount = table.LookupList.Lookup[0].LookupType, 0, [], 0
+            table.LookupList.Lookup.insert(0, lk)
+            table.LookupList.LookupCount += 1
     return f
